@@ -252,4 +252,6 @@ def run(chk, tier, only_rule=None):
     r04_2(chk, facts)
     r04_3(chk, facts)
     r04_4(chk, facts)
+    from . import c01
+    c01.r01_7(chk, facts)
     c05.r05_1(chk, facts)
